@@ -849,6 +849,11 @@ def session_prop(st, it, c, out):
             clauses.append(("backspace_makes_progress", after < before))
             if sh.get("pending") is None:
                 clauses.append(("backspace_pops_one_code_point", seq_eq(buf, c["buf"][:-1])))
+        if sh.get("pending") is not None:
+            # a sign waiting for its consonant is discarded by one backspace: nothing else changes
+            clauses.append(("backspace_discards_only_the_waiting_sign",
+                            z3.Implies(z3.Not(ctrl), z3.And(seq_eq(buf, c["buf"]), z3.BoolVal(pend.variant == 0)))))
+            clauses.append(("cover:backspace_with_waiting_sign", z3.Not(ctrl)))
         clauses.append(("cover:backspace_%s" % ("empty" if ret_empty else "nonempty"), True))
     if ev in ("key", "nokey"):
         if ret_empty is False:
@@ -998,6 +1003,7 @@ def native_session_search(v):
             steps.append({"op": "key", "key": PLANT_KEYS[k], "mod": 0, "sel": 0})
         # drive to the end with the counterexample's event, repeated for backspace
         reps = 4 if ev["op"] == "backspace" else 1
+        steps.append({"op": "get_state"})
         for _ in range(reps):
             steps.append(dict(ev))
             steps.append({"op": "get_state"})
@@ -1006,9 +1012,10 @@ def native_session_search(v):
     for sc, r in zip(scs, res):
         rr = r["results"]
         for i, x in enumerate(rr):
-            if x.get("op") != ev["op"] or i + 1 >= len(rr):
+            if x.get("op") != ev["op"] or i + 1 >= len(rr) or rr[i + 1].get("op") != "get_state":
                 continue
             st = rr[i + 1].get("state") or {}
+            before = (rr[i - 1].get("state") or {}) if i >= 1 and rr[i - 1].get("op") == "get_state" else {}
             if "panic" in x:
                 if v["predicted"].get("panic") is not None:
                     return sc, rr[i:i + 2], "event %s panics after keys %s: %s" % (ev["op"], [s.get("key") for s in sc["steps"][1:i]], x["panic"])
@@ -1025,7 +1032,12 @@ def native_session_search(v):
                 bad = True
             if clause == "session_invariant_preserved" and st.get("buffer") == "" and st.get("pending") is None and st.get("typed") != "":
                 bad = True
-            if clause == "idle_backspace_returns_empty" and False:
+            if clause in ("list_not_empty", "preselection_inside_list") and sug and sug.get("kind") == "full" and (sug["len"] == 0 or sug["sel"] >= sug["len"]):
+                bad = True
+            if clause == "auxiliary_is_the_composed_text" and sug and sug.get("kind") == "full" and sug.get("aux") != st.get("buffer"):
+                bad = True
+            if (clause == "backspace_discards_only_the_waiting_sign" and ev["op"] == "backspace" and not ev.get("ctrl") and before.get("pending") is not None
+                    and (st.get("buffer") != before.get("buffer") or st.get("pending") is not None)):
                 bad = True
             if bad:
                 keys = [SEARCH_VALUES[PLANT_KEYS.index(s["key"])] if s["key"] in PLANT_KEYS else lay.get("Key_a_Normal")
